@@ -18,41 +18,16 @@ Ltac cmp_all :=
           | |- context [?a =? ?b] => no_if a; no_if b; destruct (N.eqb_spec a b)
           end; cbn [andb orb]; try lia).
 
-Definition hex_punct (c : N) : bool := (58 <=? c) && (c <=? 63).
-
-Lemma digit_agree_8_10 base c : base = 8 \/ base = 10 -> digit_impl base c = digit_spec base c.
+Lemma digit_agree_base base c : (base = 8 \/ base = 10 \/ base = 16) ->
+  digit_impl base c = digit_spec base c.
 Proof.
-  intros [-> | ->]; unfold digit_impl, digit_spec; cmp_all;
+  intros [-> | [-> | ->]]; unfold digit_impl, digit_spec; cmp_all;
     try reflexivity; try (f_equal; lia).
 Qed.
 
-Lemma digit_agree_16 c : hex_punct c = false -> digit_impl 16 c = digit_spec 16 c.
-Proof.
-  unfold hex_punct, digit_impl, digit_spec. cmp_all; intros HP;
-    try discriminate; try reflexivity; try (f_equal; lia).
-Qed.
-
-Lemma digit_hex_refuted : digit_impl 16 58 = Some 10 /\ digit_spec 16 58 = None.
-Proof. split; reflexivity. Qed.
-
-Lemma known_false_in base s : known_hex_punct base s = false ->
-  base = 16 -> forall c, In c s -> hex_punct c = false.
-Proof.
-  unfold known_hex_punct. intros H -> c Hc. cbn [N.eqb Pos.eqb andb] in H.
-  destruct (hex_punct c) eqn:E; [|reflexivity].
-  assert (X : existsb (fun c => (58 <=? c) && (c <=? 63)) s = true)
-    by (apply existsb_exists; exists c; split; assumption).
-  change (16 =? 16) with true in H. cbn [andb] in H. congruence.
-Qed.
-
-Lemma digit_agree base s : (base = 8 \/ base = 10 \/ base = 16) ->
-  known_hex_punct base s = false -> forall c, In c s -> digit_impl base c = digit_spec base c.
-Proof.
-  intros [->|[->| ->]] K c Hc.
-  - apply digit_agree_8_10; auto.
-  - apply digit_agree_8_10; auto.
-  - apply digit_agree_16. eapply known_false_in; eauto.
-Qed.
+Lemma digit_agree base (s : str) : (base = 8 \/ base = 10 \/ base = 16) ->
+  forall c, In c s -> digit_impl base c = digit_spec base c.
+Proof. intros Hb c _. now apply digit_agree_base. Qed.
 
 Lemma rnd53_small n : n < 2 ^ 53 -> rnd53 n = Some n.
 Proof.
@@ -98,26 +73,20 @@ Qed.
 
 (** the two halves of C11_parse_nat_exact *)
 Lemma nat_impl_exact base s v : (base = 8 \/ base = 10 \/ base = 16) ->
-  known_hex_punct base s = false ->
   nat_spec base s = Some v -> v < 2 ^ 53 -> nat_impl base s = PFin v.
 Proof.
-  intros Hb K H Hv. destruct s as [|c r]; [discriminate|].
+  intros Hb H Hv. destruct s as [|c r]; [discriminate|].
   unfold nat_impl, nat_spec in *. apply parse_exact; auto.
   - destruct Hb as [->|[->| ->]]; lia.
   - now apply digit_agree.
 Qed.
 
 Lemma nat_impl_bad base s : (base = 8 \/ base = 10 \/ base = 16) ->
-  known_hex_punct base s = false ->
   nat_spec base s = None -> nat_impl base s = PBad.
 Proof.
-  intros Hb K H. destruct s as [|c r]; [reflexivity|].
+  intros Hb H. destruct s as [|c r]; [reflexivity|].
   unfold nat_impl, nat_spec in *. eapply parse_bad; eauto. now apply digit_agree.
 Qed.
-
-Lemma parse_hex_refuted :
-  exists s, known_hex_punct 16 s = true /\ nat_spec 16 s = None /\ nat_impl 16 s = PFin 10.
-Proof. exists [58]. repeat split. Qed.
 
 (** the accepted alphabet of the SPEC classifier is exactly [0-9] / [0-7] / [0-9a-fA-F] *)
 Lemma digit_spec_alphabet base c : (base = 8 \/ base = 10 \/ base = 16) ->
